@@ -1050,9 +1050,11 @@ impl OutstationSession {
                 Some(LastValidRequest::new(seq, hash, response, None))
             }
             FragmentType::RepeatNonRead(hash, last_response) => {
-                // If we have a pending select, update the sequence number
-                if let Some(select) = &mut self.state.select {
-                    select.update_frame_id(info.id);
+                // If the repeated request is the pending SELECT itself, move its frame id forward
+                if request.header.function == FunctionCode::Select {
+                    if let (Some(select), Ok(objects)) = (&mut self.state.select, request.objects) {
+                        select.update_frame_id_on_repeat(seq, info.id, objects.hash());
+                    }
                 }
 
                 // per the spec, we just echo the last response
